@@ -523,3 +523,15 @@ func Parallel(t *testing.T, n, workers int, fn func(t *testing.T, i int)) {
 		}
 	})
 }
+
+// Watchdog starts a REAL-time timer (call it outside any synctest bubble: timers created inside a
+// bubble are virtual, and a bubble in which a goroutine is blocked on a mutex never advances its
+// clock). If stop is not called within d, onStuck runs and the run is finished at once with whatever
+// was recorded (evidence and result are written, the process exits with the check's exit code).
+func (r *Run) Watchdog(d time.Duration, onStuck func()) (stop func()) {
+	t := time.AfterFunc(d, func() {
+		onStuck()
+		os.Exit(r.Finish())
+	})
+	return func() { t.Stop() }
+}
